@@ -88,7 +88,7 @@ Definition shape_eqb (r : rk) (m o : list nat) : bool :=
 
 Definition agrees (m : mres) (c : rcase) : bool :=
   match m, c_out c with
-  | MTotal sh, OOk => shape_eqb (c_rk c) sh (c_shape c)
+  | MTotal sh, OOk => shape_eqb (c_rk c) sh (c_shape c) && c_valid c     (* a returned document is valid JSON *)
   | MFail, OJsonErr => true
   | MDiverge, OCrash => true
   | MDiverge, OTimeout => true
